@@ -7,7 +7,7 @@ from unitgen import Raw, Prelude, Item, Rewrite
 NAME = 'u_xtok'
 PROPERTIES = ['C15']
 CONTRACTS = 'u_xtok.contracts'
-SHARED_CONTRACTS = ['u_bq.contracts', 'u_small.contracts']
+SHARED_CONTRACTS = ['u_xcr.contracts', 'u_bq.contracts', 'u_small.contracts']
 RLIMIT = 20
 M = 'xml5ever/src/tokenizer/mod.rs'
 ST = 'xml5ever/src/tokenizer/states.rs'
@@ -24,7 +24,7 @@ REWRITES = [
     Rewrite('R2-generics', r'XmlTokenizer<Sink>', 'XmlTokenizer'),
     Rewrite('R2-generics', r'<Sink: TokenSink>', ''),
     # ---- R1: interior mutability made explicit
-    Rewrite('R1-receiver', r'(fn \w+(?:<[^>]*>)?\(\s*)&self\b', r'\1&mut self'),
+    Rewrite('R1-receiver', r'(fn \w+(?:<[^>]*>)?\(\s*)&self\b', r'\1&mut self', skip=('CharRefTokenizer::name_buf',)),
     Rewrite('R1-receiver', r'\binput: &BufferQueue\b', 'input: &mut BufferQueue'),
     Rewrite('R1-receiver', r'\btokenizer: &XmlTokenizer\b', 'tokenizer: &mut XmlTokenizer'),
     Rewrite('R1-receiver', r'let input = BufferQueue::default\(\);', 'let mut input = BufferQueue::default();'),
@@ -34,6 +34,8 @@ REWRITES = [
     Rewrite('R28-box', r'Option<Box<CharRefTokenizer>>', 'Option<CharRefTokenizer>'),
     Rewrite('R28-box', r'Some\(Box::new\(CharRefTokenizer::new\(addnl_allowed\)\)\)', 'Some(CharRefTokenizer::new(addnl_allowed))'),
     # ---- R15: error-message wording is dropped (format!/Cow); which errors are raised is kept
+    Rewrite('R15-msgarg', r'Cow::from\(format!\("Invalid character reference &\{\}", self\.name_buf\(\)\)\)',
+            '{ let _nb = self.name_buf(); Cow::msg() }', min_count=1),
     Rewrite('R15-msg', r'\bCow::from\(', 'Cow::msg()', balanced=True),
     Rewrite('R15-msg', r'\bCow::Owned\(', 'Cow::msg()', balanced=True),
     Rewrite('R15-msg', r'\bBorrowed\(', 'Cow::msg()', balanced=True),
@@ -53,6 +55,17 @@ REWRITES = [
     #      so that a proof step can follow them
     Rewrite('R27-armblock', r'(FromSet\(c\)|NotFromSet\((?:ref )?b\)) => ([^,\n]+),\n', r'\1 => { \2; },\n', min_count=8),
     Rewrite('R-vis', r'\bpub\(super\)\s+', 'pub '),
+    # ---- R19: the generated PHF map of named entities is a model function with an ASSUMED contract over the
+    #      uninterpreted entity table; byte-range slicing of the name buffer goes through the tendril model (R8)
+    Rewrite('R19-entities', r'data::NAMED_ENTITIES\.get\(&self\.name_buf\(\)\[\.\.\]\)', 'named_entities_get(self.name_buf().as_str())', min_count=1),
+    Rewrite('R11-byvalue', r'Some\(&m\) =>', 'Some(m) =>'),
+    Rewrite('R8-slice', r'self\.name_buf\(\)\[name_len - 1\.\.\]', 'self.name_buf().slice_from(name_len - 1)'),
+    Rewrite('R8-slice', r'&self\.name_buf\(\)\[name_len\.\.\]', 'self.name_buf().slice_from(name_len)'),
+    Rewrite('R8-slice', r'self\.name_buf\(\)\[name_len\.\.\]', 'self.name_buf().slice_from(name_len)'),
+    # ---- R34: Verus 0.2026.09.13 loses track of a `&mut` parameter that is passed on inside a GUARDED match arm; the guard
+    #      of `Some(';') if G => E,` is moved into the arm (the only arm that follows is `_ => ()` and E has type ())
+    Rewrite('R34-guard-into-arm', r"Some\(';'\) if self\.name_buf\(\)\.len\(\) > 1 => self\.emit_name_error\(tokenizer\),(\s*)_ => \(\),",
+            r"Some(';') => { if self.name_buf().len() > 1 { self.emit_name_error(tokenizer) } },\1_ => (),", only=('CharRefTokenizer::finish_named',), min_count=1),
     # ---- R29: a RefMut held across a loop is re-borrowed at its single use instead (RefCell borrow scopes are not modelled;
     #      no other borrow of the cell happens inside the loop)
     Rewrite('R29-refmut-scope', r'let mut temp_buf = self\.temp_buf\.borrow_mut\(\);\s*while let Some\(data\) = input\.next\(\) \{\s*temp_buf\.push_char\(data\);',
@@ -94,13 +107,29 @@ TYPES = [
     Item(M, 'struct', 'XmlTokenizer',
          rewrites=(Rewrite('R2-generics', r'pub struct XmlTokenizer<Sink>', 'pub struct XmlTokenizer'),
                    Rewrite('R3-profile', r'state_profile: RefCell<BTreeMap<XmlState, u64>>', 'state_profile: RefCell<ProfileMap>'))),
+    Raw('pub mod data { use super::*;'),
+    Item('web_atoms/lib.rs', 'static', 'C1_REPLACEMENTS',
+         rewrites=(Rewrite('R20-static', r'pub static C1_REPLACEMENTS', 'pub const C1_REPLACEMENTS'),)),
+    Raw('}'),
     Item(CR, 'struct', 'CharRef'),
-    Item(CR, 'enum', 'Status'),
+    Item(CR, 'enum', 'Status', attrs=DERIVE),
     Item(CR, 'enum', 'State', qname='char_ref::State',
          rewrites=(Rewrite('R-rename', r'\benum State\b', 'pub enum CrState'),), attrs=DERIVE),
-    Item(CR, 'struct', 'CharRefTokenizer', rewrites=(Rewrite('R-rename', r'\bstate: State\b', 'state: CrState'),)),
-    Raw('pub mod char_ref { pub use super::Status::*; }'),
+    Item(CR, 'struct', 'CharRefTokenizer', rewrites=(Rewrite('R-rename', r'\bstate: State\b', 'state: CrState'),
+                                                    Rewrite('R-vis', r'(?m)^(\s+)(\w+): ', r'\1pub \2: '))),
+    Raw('pub mod char_ref { pub use super::Status::*; }\npub use CrState::*;\npub use Status::*;'),
 ]
+
+CR_RENAME = ()
+# the character-reference sub-tokenizer: used here through its contracts, verified by unit u_xcr
+CRFNS = ('new', 'get_result', 'name_buf', 'name_buf_mut', 'finish_none', 'finish_one', 'step', 'do_begin', 'do_octothorpe',
+         'do_numeric', 'do_numeric_semicolon', 'unconsume_numeric', 'finish_numeric', 'do_named', 'emit_name_error',
+         'unconsume_name', 'finish_named', 'do_bogus_name', 'end_of_file')
+
+
+def cr(name, **kw):
+    return Item(CR, 'fn', name, impl='CharRefTokenizer', wrap='impl CharRefTokenizer', rewrites=CR_RENAME, **kw)
+
 
 BQFN = ('is_empty', 'pop_front', 'push_front', 'push_back', 'peek', 'pop_except_from', 'next', 'eat')
 
@@ -116,6 +145,8 @@ PARTS = MACROS + [
     Item(BQ, 'enum', 'SetResult'),
     Raw('pub use SetResult::{FromSet, NotFromSet};'),
     Item(BQ, 'struct', 'BufferQueue'),
+    Prelude('enttab.prelude.rs'),
+    Prelude('xcr.abs.rs'),
     Prelude('xtok.abs.rs'),
 ] + [Item(BQ, 'fn', n, impl='BufferQueue', wrap='impl BufferQueue', mode='assume', unit_rewrites=False,
           rewrites=(Rewrite('R1-receiver', r'\(&self\b', '(&mut self', only=('BufferQueue::pop_front', 'BufferQueue::push_front', 'BufferQueue::push_back', 'BufferQueue::pop_except_from', 'BufferQueue::eat', 'BufferQueue::next')),))
@@ -131,8 +162,7 @@ PARTS = MACROS + [
     tk('peek'), tk('discard_char'), tk('unconsume'), tk('discard_raw_char'),
     tk('step'), tk('step_char_ref_tokenizer', mode='assume'), tk('process_char_ref'),
     tk('finish_attribute', mode='assume'), tk('create_attribute'),
-    Item(CR, 'fn', 'new', impl='CharRefTokenizer', wrap='impl CharRefTokenizer', canary=False,
-         rewrites=(Rewrite('R-rename', r'\bstate: Begin\b', 'state: CrState::Begin'),)),
+] + [cr(n, mode='assume') for n in CRFNS] + [
     Raw('} // verus!\nfn main() {}'),
 ]
 
